@@ -568,6 +568,7 @@ def run(ctx, build, verdict, ev):
             "outside_ws": 0, "outside_wf": 0}
     by_kind = {}
     msg_kinds = {}
+    outcome_kinds = {}
     signatures = set()
     pending_violations = []
     evaluations = 0
@@ -625,6 +626,8 @@ def run(ctx, build, verdict, ev):
         dist["outside_ws"] += not desc["ws"]
         dist["outside_wf"] += not desc["wf"]
         by_kind[origin] = by_kind.get(origin, 0) + 1
+        for _, o, _ in outcomes:
+            outcome_kinds[o] = outcome_kinds.get(o, 0) + 1
         for m in msgs:
             kind = " ".join(m.strip("()").split()[:2]) if m.startswith("(MMissing") else m.strip("()").split()[0]
             msg_kinds[kind] = msg_kinds.get(kind, 0) + 1
@@ -669,7 +672,7 @@ def run(ctx, build, verdict, ev):
     c["rule"] = ("every cell of 2^5 operator subsets x 4 rule shapes x integral/weighted x 1-2 blocks gets its canonical engine and "
                  f"{n_variants} random variant(s); {n_random} engines with random structure; each engine is processed on {n_rows} finite rows. "
                  "distinct_nontrivial = number of distinct (is_ready message-kind sequence with indices/counts masked, set of process outcomes) pairs observed")
-    c["distribution"] = {**dist, "by_origin": by_kind, "message_kinds": msg_kinds, "outcome_depends_on_row": row_dependent}
+    c["distribution"] = {**dist, "by_origin": by_kind, "message_kinds": msg_kinds, "process_outcomes": outcome_kinds, "outcome_depends_on_row": row_dependent}
     c["correspondence_mismatches"] = len(mismatches) + row_dependent
     c["oracle_violations"] = len(pending_violations)
     c["oracle_violation_signatures"] = sorted({v[1] for v in pending_violations})
